@@ -1749,7 +1749,7 @@ struct Fill
                     g_now_ns  = t0c;
                     AD a2(c2);
                     a2.apply(mkins(1, 9100));
-                    for (int i = 0; i < 15 + N; i++)
+                    for (int i = 0; i < 16 * N - 1; i++)
                     {
                         Op f   = mk1(OpK::Find, 1);
                         f.peek = 0;
@@ -1760,7 +1760,7 @@ struct Fill
                     Op f   = mk1(OpK::FindUC, 1);
                     f.peek = 1;
                     Result q    = a2.apply(f);
-                    int    cnt  = 16 + N;
+                    int    cnt  = 16 * N;
                     int    want = (int)(size_t)(cnt * rt);
                     if (!q.v[0] || q.v[2] != want)
                         mbad(14, "use count " + std::to_string(cnt) + " aged with ratio " + std::to_string(rt) + " became " + std::to_string(q.v[2]) + ", expected " + std::to_string(want));
